@@ -13,6 +13,43 @@ NOTE_COMMON = ("Trusted: Lean 4.33 kernel; axioms propext/Classical.choice/Quot.
                "double arithmetic is exact (float residue, DESIGN §3.1/§6).")
 
 CLAIMS = {
+    "C01": dict(
+        category="proof", design_ref="§7 C01, Appendix A.3",
+        technique="Lean 4 theorem resolve_valid over a hand-written model of Graph.fromdict (fold invariants for the four loops) + corollaries for load/load_all/in_generations/rename_demes + differential correspondence; independent Lean validator run on the code's outputs",
+        text=("Kernel-checked theorem resolve_valid: for EVERY document d, if the Model of Graph.fromdict returns a graph g then the independent validator "
+              "Spec.validGraph accepts g (all clauses V0-V13: name index, unique identifier names, ancestors earlier/alive, proportions, contiguous epochs, sizes, "
+              "migrations/pulses in coexistence intervals, at most one migration per ordered pair, ingress <= 1 at ALL times (resolve_ingress_all_times), pulses "
+              "sorted); corollaries load_valid, loadAll_valid (any text codec), resolve_inGenerations_valid, resolve_rename_valid. The Model is tied to the code by "
+              "exact comparison of accept/reject, resolved dictionary and name index on generated documents and rule-targeted mutants through dict/YAML/JSON/Builder "
+              "routes, the field/validator tables are regenerated from the source AST and proved equal to the Model's, and Spec.validGraph is evaluated on every "
+              "graph the real library returns (incl. in_generations, rename_demes)."),
+        note=NOTE_COMMON + " from_ms graphs are covered by the C08 check once the ms Model lands; non-ASCII identifiers and bool-as-number are outside the exact stream."),
+    "C03": dict(
+        category="proof", design_ref="§7 C03",
+        technique="Lean 4 theorems (resolve_valid: acceptance implies every rule; resolve_asdict: no spurious rejection of fully-resolved documents; tables_* regenerated from the source) + differential accept/reject correspondence on rule-targeted mutants",
+        text=("The '=>' direction is the kernel-checked theorem resolve_valid (whatever the Model of Graph.fromdict accepts satisfies every rule of the data model, for "
+              "ALL documents), so a document whose resolution would break a rule is rejected by the Model; schema rules (unknown fields, types, invalid unused defaults) "
+              "are the Model's own checks, pinned to the source by the regenerated tables_* theorems. The '<=' direction is proved for fully-resolved documents "
+              "(resolve_asdict) and otherwise covered by the differential: un-mutated valid models must be accepted by every route. The Model is tied to the code by "
+              "exact agreement of accept/reject on ~700 (quick) rule-targeted and structural mutants per run, values placed on/inside/outside each bound."),
+        note=NOTE_COMMON + " The general '<=' (no spurious rejection of arbitrary human-readable documents) is not a theorem: partial."),
+    "C06": dict(
+        category="proof", design_ref="§7 C06",
+        technique="Lean 4 theorems (asdict shape/plainness/allowed fields, read_asdict, resolve_asdict fixed point for every valid graph) + differential correspondence",
+        text=("Kernel-checked theorems asdict_shape, asdict_explicit, asdict_fields_allowed(_source), asdict_plain(_numbers), coerce_idem, read_asdict, resolve_asdict "
+              "(for EVERY graph accepted by Spec.validGraph, resolving its fully-resolved dictionary returns the same graph), asdict_fixed_point over the Models of "
+              "Graph.asdict and Graph.fromdict. Model tied to the code by exact comparison of asdict() and of resolve(asdict()); shape, plain types, fixed point and "
+              "independence from later mutation of returned dictionaries are re-checked on the real objects, incl. graphs built from numeric/string subclasses."),
+        note=NOTE_COMMON + " Subclass coercion and 'changing the returned dictionary never changes the graph' are run-time observations."),
+    "C10": dict(
+        category="proof", design_ref="§7 C10",
+        technique="Lean 4 theorems over a hand-written model of assert_close/isclose (reflexive, symmetric, invariant under the allowed re-orderings, sound w.r.t. a declarative SemClose) + differential correspondence",
+        text=("Kernel-checked theorems isclose_refl, isclose_symm, isclose_ignores, isclose_perm_migrations, isclose_perm_demes, isclose_perm_ancestors, isclose_sound "
+              "(Graph.isclose t a b => SemClose t a b for EVERY tolerance, after the repair of defects F7 and F17) and the contrapositives isclose_detects_* (time units, "
+              "generation time, deme names, start time, ancestry, epoch count/values, migrations, pulse count/order/values). Model tied to the code by exact comparison "
+              "of the boolean on perturbed pairs in both orders with default and custom tolerances; assert/boolean agreement, symmetry, reflexivity and the expected "
+              "outcome of each perturbation are checked on the real objects."),
+        note=NOTE_COMMON + " Perturbations are a factor >= 2 away from the tolerance so that double rounding of math.isclose cannot matter."),
     "C11": dict(
         category="proof", design_ref="§7 C11",
         technique="Lean 4 theorems over a hand-written model (times rescaled, rest unchanged, idempotent, validity preserved) + differential correspondence model<->code",
